@@ -28,7 +28,7 @@ from . import c13
 # magnitude type must survive the text forms
 MAGS = [7, 2.5, Decimal("1.10"), 0, -3, 1e21, 1e-7, Decimal("-0.5"), Decimal("5"), Decimal("-12"), Decimal("0"), Decimal("1E+3"), 0.0]
 CODECS = ["pickle2", "pickle3", "pickle4", "pickle5", "copy", "deepcopy", "json", "json_installed",
-          "pydantic_python", "pydantic_json"]
+          "json_installed_options", "json_installed_file", "pydantic_python", "pydantic_json"]
 Q_CODECS = CODECS + ["composite", "json_method"]
 
 _ADAPTERS = {}
@@ -57,6 +57,22 @@ def roundtrip(w, codec, x):
     if codec == "json_installed":
         with mj.codecs_installed():
             return json.loads(json.dumps(x))
+    if codec == "json_installed_options":
+        # json.loads builds a plain JSONDecoder(**options) as soon as any option is given: the
+        # installed codecs must reach that one too
+        with mj.codecs_installed():
+            text = json.dumps(x)  # (dumps with options builds its own encoder; the library only claims the default one)
+            a = json.loads(text, strict=False)
+            b = json.loads(text, parse_float=float)
+            if (a is not b) and not (a == b):
+                raise ValueError(f"json.loads(strict=False) and json.loads(parse_float=float) disagree: {a!r} vs {b!r}")
+            return a
+    if codec == "json_installed_file":
+        with mj.codecs_installed():
+            buf = io.StringIO()
+            json.dump(x, buf)
+            buf.seek(0)
+            return json.load(buf)
     if codec == "pydantic_python":
         a = adapter(type(x))
         return a.validate_python(a.dump_python(x))
@@ -128,7 +144,7 @@ def check_quantity(w, u, label, out, rp):
             try:
                 y = roundtrip(w, codec, q)
             except (ParseError, KeyError) as e:
-                if codec in ("json", "json_installed", "pydantic_json", "pydantic_python", "composite", "json_method"):
+                if codec in ("json", "json_installed", "json_installed_options", "json_installed_file", "pydantic_json", "pydantic_python", "composite", "json_method"):
                     cls = cls or unit_class(w, u)
                     out["viols"].append(("quantity_text_form_not_parsable", cls, f"{codec} round trip of {mg!r} x {label}: str(unit) = {str(u)!r} does not parse ({type(e).__name__})", dict(rp, codec=codec, m=repr(mg))))
                     out["outcomes"][f"q {codec}:unit text unparsable"] = out["outcomes"].get(f"q {codec}:unit text unparsable", 0) + 1
@@ -141,6 +157,9 @@ def check_quantity(w, u, label, out, rp):
             out["outcomes"][f"q {codec}:returned"] = out["outcomes"].get(f"q {codec}:returned", 0) + 1
             if codec == "pydantic_python" and y is q:
                 continue  # python mode hands the object through
+            if not isinstance(y, m.Quantity):
+                out["viols"].append(("quantity_not_decoded", codec, f"{codec}: {q!r} came back as {type(y).__name__} {str(y)[:80]!r}", dict(rp, codec=codec, m=repr(mg))))
+                continue
             same_unit = y.unit is u
             if type(y.magnitude) is not type(mg) or y.magnitude != mg:
                 out["viols"].append(("quantity_magnitude_changed", codec, f"{codec}: {q!r} came back as {y!r} (magnitude {y.magnitude!r}, {type(y.magnitude).__name__})", dict(rp, codec=codec, m=repr(mg))))
